@@ -88,6 +88,32 @@ class SymbolTables:
         self._symbol_tables = {}
         self._current_scope = None
 
+    def snapshot(self):
+        """
+        :returns: the names of the current top-level symbol tables and the \
+            current scope, for use with :py:meth:`rollback`.
+        :rtype: Tuple[FrozenSet[str], \
+            Optional[:py:class:`fparser.two.symbol_table.SymbolTable`]]
+        """
+        return (frozenset(self._symbol_tables.keys()), self._current_scope)
+
+    def rollback(self, snapshot):
+        """
+        Removes every top-level symbol table that did not exist when the
+        supplied snapshot was taken and makes the scope that was current
+        then the current scope again. Used to undo the effect of a parse
+        that failed.
+
+        :param snapshot: value returned by :py:meth:`snapshot`.
+        :type snapshot: Tuple[FrozenSet[str], \
+            Optional[:py:class:`fparser.two.symbol_table.SymbolTable`]]
+        """
+        names, scope = snapshot
+        for name in list(self._symbol_tables.keys()):
+            if name not in names:
+                del self._symbol_tables[name]
+        self._current_scope = scope
+
     def add(self, name, node=None):
         """
         Add a new symbol table with the supplied name. The name will be
